@@ -2,6 +2,7 @@ package sx
 
 import (
 	"fmt"
+	"time"
 	"go/token"
 	"go/types"
 	"strings"
@@ -151,6 +152,8 @@ type lockKey struct {
 	idx  int
 }
 
+const engineCap = 1 << 16
+
 // Interp is the per-worker interpreter; reset per path.
 type Interp struct {
 	P      *Program
@@ -192,6 +195,9 @@ type Interp struct {
 	once       map[lockKey]bool
 	atomVals   map[lockKey]Value
 	property   string
+	hashUF     bool
+	extraScopes int
+	pathStart   time.Time
 }
 
 type Config struct {
@@ -744,16 +750,24 @@ func (in *Interp) makeSlice(fr *Frame, ins *ssa.MakeSlice) {
 	okLen := in.ts.And(in.ts.Cmp(OSLe, zero, lt), in.ts.Cmp(OSLe, lt, in.sameWidth(ct, lt)))
 	in.check(okLen, "makeslice: len out of range")
 	if !lt.IsConst() || !ct.IsConst() {
-		// is an absurdly large allocation possible?
+		// can the input drive the allocation beyond what the protocol permits (512 MB)?
 		big := in.ts.Cmp(OSLt, in.ts.BVConst(int(ct.Sort.W), uint64(in.allocCap)), ct)
 		if !big.IsFalse() && in.branch(big, "alloc") {
 			panic(pathEnd{Verdict{Kind: "ALLOC", Label: "allocation size controlled by input exceeds cap", Func: fr.fn.String(), Pos: in.posOf(fr)}})
+		}
+		// sizes the engine does not materialise are outside the bound
+		small := in.ts.Cmp(OSLe, ct, in.ts.BVConst(int(ct.Sort.W), 64))
+		if !in.branch(small, "alloc-small") {
+			panic(pathEnd{Verdict{Kind: "ASSUME", Label: "input-driven allocation between 64 elements and the limit (outside bound)"}})
 		}
 	}
 	n := in.concreteInt(ct, true, "make cap")
 	l := in.concreteInt(lt, true, "make len")
 	if n > in.allocCap {
 		panic(pathEnd{Verdict{Kind: "ALLOC", Label: "allocation size exceeds cap", Func: fr.fn.String(), Pos: in.posOf(fr)}})
+	}
+	if n > engineCap {
+		panic(pathEnd{Verdict{Kind: "ASSUME", Label: "allocation larger than the engine materialises (outside bound)"}})
 	}
 	et := ins.Type().Underlying().(*types.Slice).Elem()
 	arr := &Agg{V: make([]Value, n)}
@@ -835,7 +849,7 @@ func (in *Interp) sliceOp(fr *Frame, ins *ssa.Slice) Value {
 	case Str:
 		n := s.Len()
 		if s.Num != nil {
-			panic(abortf("slicing numeric string"))
+			panic(opaqueUse("slicing numeric string"))
 		}
 		h := n
 		if hi != nil {
@@ -851,7 +865,7 @@ func (in *Interp) sliceOp(fr *Frame, ins *ssa.Slice) Value {
 			if lo == nil && hi == nil {
 				return s
 			}
-			panic(abortf("slicing numeric byte string"))
+			panic(opaqueUse("slicing numeric byte string"))
 		}
 		c := s.Cap
 		m := c
@@ -899,7 +913,7 @@ func (in *Interp) indexAddr(fr *Frame, ins *ssa.IndexAddr) {
 	switch s := x.(type) {
 	case Slice:
 		if s.Arr.opaque() {
-			panic(abortf("byte-level access to numeric string"))
+			panic(opaqueUse("byte-level access to numeric string"))
 		}
 		i := in.boundedIndex(in.get(fr, ins.Index), ins.Index.Type(), s.Len, false, kind)
 		in.set(fr, ins, Ptr{Base: s.Arr, Idx: s.Off + i})
@@ -932,7 +946,7 @@ func (in *Interp) indexOp(fr *Frame, ins *ssa.Index) {
 	switch s := x.(type) {
 	case Str:
 		if s.Num != nil {
-			panic(abortf("byte-level access to numeric string"))
+			panic(opaqueUse("byte-level access to numeric string"))
 		}
 		it := in.asTerm(idx)
 		n := s.Len()
@@ -1005,7 +1019,7 @@ func (in *Interp) lookupOp(fr *Frame, ins *ssa.Lookup) {
 		it := in.asTerm(idx)
 		n := s.Len()
 		if s.Num != nil {
-			panic(abortf("byte-level access to numeric string"))
+			panic(opaqueUse("byte-level access to numeric string"))
 		}
 		if !it.IsConst() && n > 0 && n <= 64 {
 			ok := in.ts.Cmp(OULt, it, in.ts.BVConst(int(it.Sort.W), uint64(n)))
@@ -1175,12 +1189,12 @@ func (in *Interp) callBuiltin(th *Thread, b *ssa.Builtin, args []Value, site *ss
 		switch x := args[0].(type) {
 		case Str:
 			if x.Num != nil {
-				panic(abortf("len of numeric string"))
+				panic(opaqueUse("len of numeric string"))
 			}
 			return ts.BVConst(64, uint64(x.Len()))
 		case Slice:
 			if x.Arr.opaque() {
-				panic(abortf("len of numeric byte string"))
+				panic(opaqueUse("len of numeric byte string"))
 			}
 			return ts.BVConst(64, uint64(x.Len))
 		case MapV:
@@ -1339,7 +1353,7 @@ func (in *Interp) appendOp(s Slice, more Value) Value {
 	switch m := more.(type) {
 	case Slice:
 		if m.Arr.opaque() {
-			panic(abortf("append of numeric byte string"))
+			panic(opaqueUse("append of numeric byte string"))
 		}
 		for i := 0; i < m.Len; i++ {
 			elems = append(elems, copyVal(m.Arr.V[m.Off+i]))
@@ -1352,7 +1366,7 @@ func (in *Interp) appendOp(s Slice, more Value) Value {
 		panic(abortf("append of %T", more))
 	}
 	if s.Arr.opaque() {
-		panic(abortf("append to numeric byte string"))
+		panic(opaqueUse("append to numeric byte string"))
 	}
 	if len(elems) == 0 {
 		return s
@@ -1364,7 +1378,8 @@ func (in *Interp) appendOp(s Slice, more Value) Value {
 		}
 		return Slice{Arr: s.Arr, Off: s.Off, Len: need, Cap: s.Cap}
 	}
-	if int64(need) > in.allocCap {
+	if int64(need) > engineCap {
+		// a slice that keeps growing under the control of an input value
 		panic(pathEnd{Verdict{Kind: "ALLOC", Label: "append grows beyond allocation cap"}})
 	}
 	newcap := need
